@@ -615,6 +615,8 @@ pub fn replay_bounded(unit: &str) -> Option<i32> {
         "b_generate_constructed" => run_grid(unit, contract_generate_constructed, limit),
         "b_c04_component_bounds" => run_grid(unit, contract_generate_component_bounds, limit),
         "b_generate_enumerated" => run_grid(unit, contract_generate_enumerated, limit),
+        "b_resolve_class_reference_frame" => run_grid(unit, contract_resolve_class_reference_frame, limit),
+        "b_c02_component_types" => run_grid(unit, contract_generate_component_types, limit),
         "b_c06_int_type_serial" => run_grid(unit, contract_int_type_serial, limit),
         "b_sequence_parser" => run_grid(unit, crate::lexer::verif_hook_sequence::contract_sequence_parser, limit),
         "b_c07_struct_value_defaults" => run_grid(unit, contract_struct_value_defaults, limit),
@@ -1213,6 +1215,124 @@ pub fn contract_int_type_serial<C: Ctx>(cx: &mut C) {
         };
         vob!(cx, "C06.int_type.holds_every_permitted_value", fits(t));
         vob!(cx, "C06.int_type.fixed_width_only_without_extension_marker", t == IntegerType::Unbounded || !any_marker);
+    }
+    #[cfg(kani)]
+    { let _ = cx; }
+}
+
+// ------------------------------------------------------------------------------------------------
+// C02 — "whose Rust type corresponds to the component's ASN.1 type ... DEFAULT components carry a default function":
+// Rasn::constraints_and_type_name (component type table), format_sequence_member / format_default_methods
+// (generator/rasn).  Bounded stand-in (native): one component of every builtin type (table below, written from the
+// rasn prelude's type names), REQUIRED / OPTIONAL / DEFAULT, in SEQUENCE / SET / CHOICE / SEQUENCE OF, in types whose
+// ASN.1 names exercise the case conversions (T, PDU-Header, X-info).
+// ------------------------------------------------------------------------------------------------
+pub fn contract_generate_component_types<C: Ctx>(cx: &mut C) {
+    #[cfg(not(kani))]
+    {
+        use crate::intermediate::types::*;
+        use crate::generator::Backend;
+        use std::{cell::RefCell, rc::Rc};
+        let cs = |t: CharacterStringType| ASN1Type::CharacterString(CharacterString { constraints: vec![], ty: t });
+        // (ASN.1 type, rasn type token, DEFAULT value usable for it)
+        let table: Vec<(&str, ASN1Type, &str, Option<ASN1Value>)> = vec![
+            ("NULL", ASN1Type::Null, "()", None),
+            ("BOOLEAN", ASN1Type::Boolean(Boolean { constraints: vec![] }), "bool", Some(ASN1Value::Boolean(true))),
+            ("INTEGER", ASN1Type::Integer(Integer { constraints: vec![], distinguished_values: None }), "Integer", Some(ASN1Value::LinkedIntValue { integer_type: IntegerType::Unbounded, value: 1 })),
+            ("BIT STRING", ASN1Type::BitString(BitString { constraints: vec![], distinguished_values: None }), "BitString", None),
+            ("OCTET STRING", ASN1Type::OctetString(OctetString { constraints: vec![] }), "OctetString", None),
+            ("OBJECT IDENTIFIER", ASN1Type::ObjectIdentifier(ObjectIdentifier { constraints: vec![] }), "ObjectIdentifier", None),
+            ("UTCTime", ASN1Type::UTCTime(UTCTime { constraints: vec![] }), "UtcTime", None),
+            ("GeneralizedTime", ASN1Type::GeneralizedTime(GeneralizedTime { constraints: vec![] }), "GeneralizedTime", None),
+            ("UTF8String", cs(CharacterStringType::UTF8String), "Utf8String", None),
+            ("IA5String", cs(CharacterStringType::IA5String), "Ia5String", None),
+            ("PrintableString", cs(CharacterStringType::PrintableString), "PrintableString", None),
+            ("NumericString", cs(CharacterStringType::NumericString), "NumericString", None),
+            ("VisibleString", cs(CharacterStringType::VisibleString), "VisibleString", None),
+            ("BMPString", cs(CharacterStringType::BMPString), "BmpString", None),
+            ("reference", ASN1Type::ElsewhereDeclaredType(DeclarationElsewhere { parent: None, module: None, identifier: "Other-Type".into(), constraints: vec![] }), "OtherType", None),
+        ];
+        let row = cx.choose(table.len());
+        let (asn_name, ty, rust_ty, default_value) = table[row].clone();
+        let position = cx.choose(4); // 0 SEQUENCE, 1 SET, 2 CHOICE, 3 element of a SEQUENCE OF component
+        let opt = cx.choose(3);      // 0 required, 1 OPTIONAL, 2 DEFAULT
+        if !cx.assume(opt != 2 || default_value.is_some()) { return; }
+        if !cx.assume(position != 2 || opt == 0) { return; }
+        const TYPE_NAMES: [(&str, &str); 3] = [("T", "T"), ("PDU-Header", "PDUHeader"), ("X-info", "XInfo")];
+        let (asn_type_name, rust_type_name) = TYPE_NAMES[cx.choose(3)];
+        let member_ty = if position == 3 { ASN1Type::SequenceOf(SequenceOrSetOf { constraints: vec![], element_type: Box::new(ty.clone()), element_tag: None, is_recursive: false }) } else { ty.clone() };
+        let optionality = match opt { 0 => Optionality::Required, 1 => Optionality::Optional, _ => Optionality::Default(default_value.clone().unwrap()) };
+        let outer = if position == 2 {
+            ASN1Type::Choice(Choice { extensible: None, constraints: vec![], options: vec![ChoiceOption { name: "f0".into(), tag: None, ty: member_ty, constraints: vec![], is_recursive: false }] })
+        } else {
+            let s = SequenceOrSet { components_of: vec![], extensible: None, constraints: vec![], members: vec![SequenceOrSetMember { name: "f0".into(), tag: None, ty: member_ty, optionality, is_recursive: false, constraints: vec![] }] };
+            if position == 1 { ASN1Type::Set(s) } else { ASN1Type::Sequence(s) }
+        };
+        cx.describe(|| format!("{asn_type_name} ::= {} {{ f0 {}{asn_name}{} }}", ["SEQUENCE", "SET", "CHOICE", "SEQUENCE"][position], if position == 3 { "SEQUENCE OF " } else { "" }, ["", " OPTIONAL", " DEFAULT <value>"][opt]));
+        let h = Rc::new(RefCell::new(ModuleHeader { name: "M".into(), module_identifier: None, encoding_reference_default: None, tagging_environment: TaggingEnvironment::Automatic, extensibility_environment: ExtensibilityEnvironment::Explicit, imports: vec![], exports: None }));
+        let tld = ToplevelDefinition::Type(ToplevelTypeDefinition { comments: String::new(), tag: None, name: asn_type_name.into(), ty: outer, parameterization: None, module_header: Some(h) });
+        let mut backend = crate::generator::rasn::Rasn::default();
+        let generated = match backend.generate_module(vec![tld]) { Ok(m) if m.warnings.is_empty() => m.generated.unwrap_or_default(), _ => { vob!(cx, "C02.generate.component_is_generated", false); return; } };
+        let Some((_, fields)) = item_of(&generated, rust_type_name) else { vob!(cx, "C02.generate.component_is_generated", false); return; };
+        if fields.len() != 1 { vob!(cx, "C02.generate.component_is_generated", false); return; }
+        let f = &fields[0];
+        let base = if position == 3 { format!("SequenceOf < {rust_ty} >") } else { rust_ty.to_string() };
+        let want_ty = if opt == 1 { format!("Option < {base} >") } else { base };
+        let got_ty = if position == 2 { { let t = f.rsplit("f0 (").next().unwrap_or("").trim(); t.strip_suffix(')').unwrap_or(t).trim().to_string() } } else { f.rsplit("pub f0 :").next().unwrap_or("").trim().to_string() };
+        vob!(cx, "C02.generate.component_rust_type_corresponds_to_the_asn1_type", got_ty == want_ty);
+        if opt == 2 {
+            // the function named by the default annotation must exist in the generated module
+            let named = f.split("default = \"").nth(1).and_then(|r| r.split('"').next()).unwrap_or("");
+            vob!(cx, "C02.generate.default_component_names_an_existing_default_function", !named.is_empty() && generated.contains(&format!("fn {named} (")));
+        } else {
+            vob!(cx, "C02.generate.no_default_annotation_without_default", !f.contains("default ="));
+        }
+    }
+    #[cfg(kani)]
+    { let _ = cx; }
+}
+
+// ------------------------------------------------------------------------------------------------
+// C02 / C03 — frame of `ASN1Type::resolve_class_reference` (validator/linking/mod.rs): replacing object-class field
+// types must leave every component's name, order, tag and the extension index untouched.
+// Bounded stand-in (native): SEQUENCE / SET / CHOICE with 1..=3 components, each untagged or tagged.
+// ------------------------------------------------------------------------------------------------
+pub fn contract_resolve_class_reference_frame<C: Ctx>(cx: &mut C) {
+    #[cfg(not(kani))]
+    {
+        use crate::intermediate::types::*;
+        use std::collections::BTreeMap;
+        let kind = cx.choose(3);
+        let n = 1 + cx.choose(3);
+        let ext = cx.choose(n + 2);
+        let extensible = if ext == 0 { None } else { Some(ext - 1) };
+        let mut tags: Vec<Option<AsnTag>> = vec![];
+        for i in 0..n {
+            tags.push(match cx.choose(3) {
+                0 => None,
+                1 => Some(AsnTag { environment: TaggingEnvironment::Implicit, tag_class: TagClass::Application, id: 5 + i as u64 }),
+                _ => Some(AsnTag { environment: TaggingEnvironment::Explicit, tag_class: TagClass::Private, id: 7 + i as u64 }),
+            });
+        }
+        let b = || ASN1Type::Boolean(Boolean { constraints: vec![] });
+        let ty = if kind == 2 {
+            ASN1Type::Choice(Choice { extensible, constraints: vec![], options: (0..n).map(|i| ChoiceOption { name: format!("f{i}"), tag: tags[i].clone(), ty: b(), constraints: vec![], is_recursive: false }).collect() })
+        } else {
+            let s = SequenceOrSet { components_of: vec![], extensible, constraints: vec![], members: (0..n).map(|i| SequenceOrSetMember { name: format!("f{i}"), tag: tags[i].clone(), ty: b(), optionality: Optionality::Optional, is_recursive: false, constraints: vec![] }).collect() };
+            if kind == 0 { ASN1Type::Sequence(s) } else { ASN1Type::Set(s) }
+        };
+        cx.describe(|| format!("kind={} components={n} first_addition_index={extensible:?} tags={:?}", ["SEQUENCE", "SET", "CHOICE"][kind], tags.iter().map(|t| t.as_ref().map(|t| format!("{:?} {}", t.tag_class, t.id))).collect::<Vec<_>>()));
+        let tlds = BTreeMap::new();
+        let out = ty.resolve_class_reference(&tlds);
+        let (names, out_tags, out_ext): (Vec<String>, Vec<Option<AsnTag>>, Option<usize>) = match &out {
+            ASN1Type::Choice(c) => (c.options.iter().map(|o| o.name.clone()).collect(), c.options.iter().map(|o| o.tag.clone()).collect(), c.extensible),
+            ASN1Type::Sequence(s) | ASN1Type::Set(s) => (s.members.iter().map(|m| m.name.clone()).collect(), s.members.iter().map(|m| m.tag.clone()).collect(), s.extensible),
+            _ => (vec![], vec![], None),
+        };
+        vob!(cx, "C02.resolve_class_reference.components_kept_in_order", names == (0..n).map(|i| format!("f{i}")).collect::<Vec<_>>());
+        vob!(cx, "C03.resolve_class_reference.component_tags_kept", out_tags == tags);
+        vob!(cx, "C05.resolve_class_reference.extension_index_kept", out_ext == extensible);
+        vob!(cx, "C02.resolve_class_reference.kind_kept", matches!((&out, kind), (ASN1Type::Sequence(_), 0) | (ASN1Type::Set(_), 1) | (ASN1Type::Choice(_), 2)));
     }
     #[cfg(kani)]
     { let _ = cx; }
